@@ -1496,11 +1496,59 @@ def _run_refutations(ctx, pending):
                       'model (regenerated key) does not identify: ' + err[-600:])
 
 
+def witness_views(ctx):
+    """results handed out earlier must not change later: one ElementLinePp / ElementQuadP object, a basis b1 on quadrature Q1
+    (arrays checksummed, matrix assembled), then the SAME element object evaluated at other point sets of equal size (a second
+    basis on Q2, lbasis directly): every array of b1 and every array returned before must be bit-identical, and assembling with
+    b1 again must give the same matrix"""
+    import skfem
+    from skfem.helpers import dot, grad
+
+    @skfem.BilinearForm
+    def a(u, v, w):
+        return u * v * (1.0 + w.x[0]) + dot(grad(u), grad(v))
+    for cname, mk_mesh, dim in (('ElementLinePp', lambda: skfem.MeshLine(np.array([0., 1., 3., 4.])), 1),
+                                ('ElementQuadP', lambda: skfem.MeshQuad.init_tensor(np.array([0., 1., 3.]), np.array([0., 2., 3.])), 2)):
+        for p in (2, 3):
+            el = getattr(skfem, cname)(p)
+            m = mk_mesh()
+            n1 = 4
+            g = np.array([0.125, 0.375, 0.625, 0.875])
+            X1 = np.vstack([g] + [g[::-1]] * (dim - 1))
+            X2 = np.vstack([g * 0.5 + 0.0625] + [g * 0.25 + 0.5] * (dim - 1))
+            X3 = np.vstack([np.array([0.1, 0.2, 0.3, 0.9])] + [np.array([0.7, 0.1, 0.4, 0.2])] * (dim - 1))
+            W = np.full(n1, 1.0 / n1)
+            b1 = skfem.Basis(m, el, quadrature=(X1, W))
+            i0 = p
+            r1 = [np.asarray(v) for v in el.lbasis(X1, i0)]
+            r1_copy = [v.copy() for v in r1]
+            mon = Monitor()
+            mon.watch(b1, 'first_basis')
+            A1 = canon(a.assemble(b1))
+            # the same element object, other point sets of the same size
+            b2 = skfem.Basis(m, el, quadrature=(X2, W))
+            el.lbasis(X3, 0)
+            a.assemble(b2)
+            ctx.count(('views', cname, p), nontrivial=True)
+            ch = mon.changed()
+            ret_changed = [k for k, (u, v) in enumerate(zip(r1, r1_copy)) if not _eqarr(u, v)]
+            A1b = canon(a.assemble(b1))
+            data = {'site': 'views', 'element': cname, 'p': p, 'X1': jsonable(X1), 'X2': jsonable(X2), 'X3': jsonable(X3),
+                    'changed_arrays_of_first_basis': ch[:6], 'changed_returned_arrays': ret_changed,
+                    'matrix_of_first_basis_changed': A1b != A1}
+            if ch or ret_changed or A1b != A1:
+                ctx.fail(f'cache:{cname}:earlier-results-change-after-equal-size-point-set',
+                         f'{cname}({p}): after the element object is evaluated at another point set of equal size, arrays of a basis built '
+                         f'EARLIER with it change ({len(ch)} arrays; returned lbasis arrays changed: {ret_changed}; its matrix changed: {A1b != A1})', data)
+
+
 def search(ctx):
     """the Python part of the search (no Coq): two-step witnesses per site, random pool histories, operand monitor.
     returns the witnesses for the model-side confirmation"""
     rng = ctx.rng
     wit = {}
+    # ---------------- results handed out earlier must survive later evaluations of the same element object (runs first)
+    witness_views(ctx)
     # ---------------- (a) two-step witnesses per site (always run; cheap)
     w = witness_pointcache(ctx, 'linepp')
     if w:
@@ -1709,6 +1757,8 @@ def replay(ctx, data):
         ctx.log('options at backend, second call:', code_dict(eff[-1]), ' fresh closure:', code_dict(fresh[0]))
         if code_dict(eff[-1]) != code_dict(fresh[0]):
             ctx.fail(data['key'], data['what'], inp)
+    elif site == 'views':
+        witness_views(ctx)
     elif site in ('constructor', 'constructor-derived'):
         search_constructors(ctx)
     else:
